@@ -198,4 +198,27 @@ def choiceIsMin (sorted : Bool) (s : State) (pod : Pod) (ch : Choice) : Bool :=
   !sorted || !pod.ranges.isEmpty || (ipsOfKey s (keyOf pod)).isEmpty ||
     pickFirst ((ipsOfKey s (keyOf pod)).map some) ch.first == minIP (ipsOfKey s (keyOf pod))
 
+/-! ## The node-subnet cache across a configuration reload -/
+
+/-- `updateConfigMap`; `clears` = the deferred closure sees the result of ensureIPAMConf and replaces `p.nodeSubnet` by an
+    empty map (regenerated fact `reloadClearsNodeSubnetCache`; false: a shadowed `updated` - the cache survives) -/
+def reloadP (clears : Bool) (s : State) (pools : List Pool) : State × Out :=
+  if clears then reload s pools else ({ (reload s pools).1 with nodeCache := s.nodeCache }, (reload s pools).2)
+
+/-- the moves of the C06 histories: API truth changes, lister syncs, Filter, Bind, configuration reloads -/
+def histMove : Move → Bool
+  | .createPod .. => true
+  | .deletePod .. => true
+  | .finishPod .. => true
+  | .runPod .. => true
+  | .scale .. => true
+  | .deleteApp .. => true
+  | .setPool .. => true
+  | .listerSync .. => true
+  | .dropEvent .. => true
+  | .filter .. => true
+  | .bind .. => true
+  | .reload .. => true
+  | _ => false
+
 end Galaxy.Plugin.C06
